@@ -2464,10 +2464,14 @@ impl Reference
 		{
 			Ok(()) => match member
 			{
-				Some((member, value_type)) =>
+				Some((member, value_type @ Some(Ok(_)))) =>
 				{
 					typer.put_symbol(&member, value_type)
 				}
+				// An unknown or poisoned type of the assigned value
+				// says nothing about the member (which is shared by
+				// every function that uses the structure).
+				Some((_member, _)) => Ok(()),
 				None => Ok(()),
 			},
 			Err(error) => Err(error),
